@@ -283,3 +283,19 @@ contract(
              "req(1)[1] == [('symbol', full.encode()), ('logical', 'class_id', 0x6B), ('logical', 'instance_id', inst0 + 1)]",
              "req(2)[1] == [('symbol', full.encode()), ('logical', 'class_id', 0x6B), ('logical', 'instance_id', inst1 + 1)]"],
     props=["C05", "C09"], max_paths=30000)
+
+# a template with an UNNAMED member (empty name between two NULs): it becomes a hidden `__unknown0`, and the members after it keep
+# their own records
+contract(
+    id="upload.template.unnamed_member", func=LD + "._parse_template_data", call="d._parse_template_data(data, template, 0x8123)",
+    params={"o1": P.int(0, 2**32 - 1), "o2": P.int(0, 2**32 - 1), "o3": P.int(0, 2**32 - 1)},
+    setup=[f"d = {LD}('10.0.0.1')", "d._cache = {'tag_name:id': {}, 'id:struct': {}, 'handle:id': {}, 'id:udt': {}}",
+           "data = (spec.logix.template_member_info(0, 0xC4, o1) + spec.logix.template_member_info(0, 0xC2, o2) + "
+           "spec.logix.template_member_info(0, 0xC3, o3) + b'Recipe;n\\x00Id\\x00\\x00Qty\\x00')",
+           "template = {'object_definition_size': 30, 'structure_size': 12, 'member_count': 3, 'structure_handle': 0x1234}"],
+    ensures=["result['name'] == 'Recipe'", "result['attributes'] == ['Id', 'Qty']", "list(result['internal_tags']) == ['Id', '__unknown0', 'Qty']",
+             "result['internal_tags']['Id']['offset'] == o1 and result['internal_tags']['Id']['data_type'] == 'DINT'",
+             "result['internal_tags']['__unknown0']['offset'] == o2 and result['internal_tags']['__unknown0']['data_type'] == 'SINT'",
+             "result['internal_tags']['Qty']['offset'] == o3 and result['internal_tags']['Qty']['data_type'] == 'INT'",
+             "result['type_class'].private == {'__unknown0'}"],
+    props=["C05"], max_paths=20000)
